@@ -167,8 +167,38 @@ def check_try(ctx, fb, rt):
         ctx.broken('R-TRY: no functor invocation recognised (idiom changed)')
 
 
+def check_entries(ctx, fb, re_):
+    """Call() and Drop() of every Core route their input through CallImpl (the dispatch); neither completes the
+    step directly: a stopped executor must not bypass callbacks that take Result / the error"""
+    n = 0
+    for f in fb.fn.values():
+        if f.clsq != 'yaclib::detail::Core' or f.n not in ('Call', 'Drop') or 'virtual' not in f.flags:
+            continue
+        n += 1
+        key = 'R-DISPATCH.entry Core::%s' % f.n
+        ctx.instance(re_, key + ' :: ' + f.cls[:140], None)
+        own = f.own_nodes()
+        direct = [x for x in own if x.get('cn') in ('yaclib::detail::Core::Done', 'yaclib::detail::ResultCore::Store',
+                                                    'yaclib::detail::BaseCore::SetResultImpl')]
+        via = [x for x in own if x.get('cn') == 'yaclib::detail::Core::CallImpl']
+        if direct or len(via) < 1:
+            ctx.report(re_, key, f.loc(direct[0]) if direct else f.where,
+                       '%s() completes the step without going through the callback dispatch (CallImpl): a callback '
+                       'that takes Result or the error type is skipped on this path' % f.n,
+                       'instantiation: ' + f.full[:300])
+        if f.n == 'Drop' and via:
+            arg = via[0]['args'][0] if via[0].get('args') else None
+            if arg is None or not any('yaclib::StopTag' in f.nodes[d].get('t', '') for d in f.descendants(arg)):
+                ctx.report(re_, key, f.loc(via[0]), 'a dropped step must dispatch Result{StopTag}',
+                           'instantiation: ' + f.full[:300])
+    if n < 100:
+        ctx.broken('Core::Call/Drop instantiations not found (%d)' % n)
+
+
 def run(ctx):
     fbs = ctx.facts(['K17', 'K20'], kinds=('probe', 'lib'), only=r'p_async\.cpp$|p_coro\.cpp$|src/')
+    re_ = ctx.rule('R-DISPATCH.entry', 'Call()/Drop() of every Core reach completion only through CallImpl; Drop '
+                   'dispatches Result{StopTag}', minimum=200)
     ra = ctx.rule('R-ACCESSOR', 'every Result accessor call in Core sees exactly the matching state', minimum=100)
     rd = ctx.rule('R-DISPATCH', 'each input state reaches exactly one of invoke / pass-through; invoke on one state',
                   minimum=100)
@@ -180,5 +210,6 @@ def run(ctx):
         fns = [f for f in lib_accessor.functions_with_accessors(fb, [CORE])]
         lib_accessor.check(ctx, fb, ra, fns)
         check_dispatch(ctx, fb, rd)
+        check_entries(ctx, fb, re_)
         check_try(ctx, fb, rt)
         lib_head.check(ctx, fb, cfg, rh, None)
